@@ -493,3 +493,71 @@ package nitro
 //@ pure inShard(x ref, j int) bool = 0 <= j && j + 1 < npv && (j == 0 || kc(x, pv[j]) >= 0) && (j + 2 == npv || kc(x, pv[j + 1]) < 0)
 //@ lemma shard-unique props=C10 use=kc-antisym,kc-trans: (npv >= 2 && (forall a, b int {pv[a], pv[b]} :: 1 <= a && a <= b && b + 1 < npv ==> kc(pv[a], pv[b]) <= 0)) ==>
 //@     (forall x ref, j1, j2 int :: inShard(x, j1) && inShard(x, j2) ==> j1 == j2)
+
+// ---------------------------------------------------------------------------
+// C20: NodeList as a list. Ghost: seq[0..n) are the nodes from the head on, linked through Node.Link.
+// ---------------------------------------------------------------------------
+
+//@ ghost field NodeList.seq [int]*skiplist.Node
+//@ ghost field NodeList.n int
+//@ ghost global nlj int
+//@ ufun shiftUp(a [int]ref) [int]ref
+//@ axiom shiftUp-def: forall a [int]ref, i int {shiftUp(a)[i]} :: shiftUp(a)[i] == a[i - 1]
+//@ ufun dropAt(a [int]ref, j int) [int]ref
+//@ axiom dropAt-def: forall a [int]ref, j int, i int {dropAt(a, j)[i]} :: dropAt(a, j)[i] == ite(i < j, a[i], a[i + 1])
+
+//@ pure nlWF(l *NodeList) bool = l != nil && l.n >= 0 && l.head == ite(l.n > 0, l.seq[0], nil) &&
+//@     (forall i int {l.seq[i]} :: 0 <= i && i < l.n ==> l.seq[i] != nil && l.seq[i].itm != nil) &&
+//@     (forall i, j int {l.seq[i], l.seq[j]} :: 0 <= i && i < j && j < l.n ==> l.seq[i] != l.seq[j]) &&
+//@     (forall i, j int {l.seq[i], l.seq[j]} :: 0 <= i && j == i + 1 && j < l.n ==> l.seq[i].Link == l.seq[j]) &&
+//@     (l.n > 0 ==> l.seq[l.n - 1].Link == nil)
+//@ pure nlKeyEq(n *skiplist.Node, key []byte) bool = cast(*Item, n.itm).dataLen == len(key) && (forall b int {key[b]} :: 0 <= b && b < len(key) ==> mem8(n.itm + 12 + b) == key[b])
+
+//@ func (*NodeList).Head
+//@ props C20
+//@ requires l != nil
+//@ modifies none
+//@ ensures[def] result == l.head
+
+//@ func (*NodeList).Add
+//@ props C20
+//@ requires nlWF(l) && node != nil && node.itm != nil && (forall i int {l.seq[i]} :: 0 <= i && i < l.n ==> l.seq[i] != node)
+//@ modifies l.head, node.Link, l.seq, l.n
+//@ use shiftUp-def
+//@ ghost-exit l.seq := store(shiftUp(l.seq), 0, node)
+//@ ghost-exit l.n := l.n + 1
+//@ ensures[push] l.n == old(l.n) + 1 && l.seq[0] == node && (forall i int {l.seq[i]} :: 1 <= i && i <= old(l.n) ==> l.seq[i] == old(l.seq[i - 1]))
+//@ ensures[wf] nlWF(l)
+//@ nopanic
+
+//@ func (*NodeList).Remove
+//@ props C20
+//@ requires nlWF(l)
+//@ ghost-pre nlj := 0
+//@ modifies l.head, heap(Node.Link), l.seq, l.n, nlj
+//@ loop 1 ghost nlj := nlj + 1
+//@ loop 1 invariant[cursor] 0 <= nlj && nlj <= l.n && node == ite(nlj < l.n, l.seq[nlj], nil) && prev == ite(nlj > 0, l.seq[nlj - 1], nil) && l.n == old(l.n) && l.seq == old(l.seq) && l.head == old(l.head)
+//@ loop 1 invariant[links] forall i int {l.seq[i]} :: 0 <= i && i < l.n ==> l.seq[i].Link == old(l.seq[i].Link)
+//@ loop 1 invariant[no-match] forall i int {l.seq[i]} :: 0 <= i && i < nlj ==> !nlKeyEq(l.seq[i], key)
+//@ loop 1 decreases l.n - nlj
+//@ use dropAt-def
+//@ ghost-exit if result != nil then l.seq := dropAt(l.seq, nlj)
+//@ ghost-exit if result != nil then l.n := l.n - 1
+//@ ensures[absent] result == nil ==> (forall i int {l.seq[i]} :: 0 <= i && i < l.n ==> !nlKeyEq(l.seq[i], key)) && l.n == old(l.n) && l.seq == old(l.seq) && l.head == old(l.head)
+//@ ensures[first-match] result != nil ==> 0 <= nlj && nlj < old(l.n) && result == old(l.seq[nlj]) && nlKeyEq(result, key) && (forall i int {old(l.seq[i])} :: 0 <= i && i < nlj ==> !nlKeyEq(old(l.seq[i]), key))
+//@ ensures[removed] result != nil ==> l.n == old(l.n) - 1 && (forall i int {l.seq[i]} :: 0 <= i && i < l.n ==> l.seq[i] == ite(i < nlj, old(l.seq[i]), old(l.seq[i + 1])))
+//@ ensures[wf] nlWF(l)
+//@ nopanic
+
+//@ func (*NodeList).Keys
+//@ props C20
+//@ requires nlWF(l)
+//@ ghost-pre nlj := 0
+//@ modifies nlj, mem(slice), heap($alive), heap($brk)
+//@ loop 1 ghost nlj := nlj + 1
+//@ loop 1 invariant[cursor] 0 <= nlj && nlj <= l.n && node == ite(nlj < l.n, l.seq[nlj], nil) && len(keys) == nlj
+//@ loop 1 invariant[collected] forall i int {keys[i]} :: 0 <= i && i < nlj ==> ptr(keys[i]) == l.seq[i].itm + 12 && len(keys[i]) == cast(*Item, l.seq[i].itm).dataLen
+//@ loop 1 decreases l.n - nlj
+//@ ensures[len] len(keys) == l.n
+//@ ensures[order] forall i int {keys[i]} :: 0 <= i && i < l.n ==> ptr(keys[i]) == l.seq[i].itm + 12 && len(keys[i]) == cast(*Item, l.seq[i].itm).dataLen
+//@ nopanic
